@@ -264,12 +264,17 @@ def replay_concrete(harness, failure, allowed_exceptions=()):
     label fails on the real package.  The solver's second witness (generic position,
     ctx.spread_model) is tried when the first does not reproduce."""
     r = _replay_one(harness, failure, allowed_exceptions)
-    if not r.get("reproduced") and failure.get("alt_inputs"):
+    alts = failure.get("alt_inputs") or []
+    if isinstance(alts, dict):
+        alts = [alts]
+    for alt in alts:
+        if r.get("reproduced"):
+            break
         f2 = dict(failure)
-        f2["inputs"] = failure["alt_inputs"]
+        f2["inputs"] = alt
         r2 = _replay_one(harness, f2, allowed_exceptions)
         if r2.get("reproduced"):
-            r2["detail"] += " (generic-position witness)"
+            r2["detail"] += " (alternative witness: generic position / faithful rounding)"
             return r2
     return r
 
@@ -286,7 +291,10 @@ def _replay_one(harness, failure, allowed_exceptions=()):
     except allowed_exceptions as e:  # pragma: no cover
         return {"reproduced": False, "detail": f"exception {type(e).__name__}: {e}"}
     labels = [l for l, _ in h.failed]
-    ok = failure["label"] in labels
+    # "x.structure" / "x.numbers" are facets of one assertion: the same assertion failing on the
+    # real package reproduces the finding whichever facet shows first
+    base = failure["label"].split(".")[0]
+    ok = failure["label"] in labels or any(l.split(".")[0] == base for l in labels)
     return {
         "reproduced": ok,
         "detail": f"concrete failed labels={labels[:5]} passed={h.passed}",
